@@ -74,8 +74,9 @@ def run_case(case, stats: Stats | None):
                 if "wild" in tags:
                     stats.classes["call:zone_temp_wild"] += 1
                     continue
+                inner = c[3] if c[0] == "with_inbound" else c
                 stats.case([inst["gen"], [a["number"] for a in inst["acs"]], c], "accepted" in tags,
-                           classes=tags + [f"call:{c[0]}", f"gen{inst['gen']}"],
+                           classes=tags + [f"call:{inner[0]}", f"gen{inst['gen']}"] + (["call-during-half-received-frame"] if inner is not c else []),
                            sample={"gen": inst["gen"], "call": c, "outcome": tags[0]})
     finally:
         x.dispose()
@@ -94,7 +95,8 @@ def shards(tier: str):
 
 def floors(tier: str):
     return {f"call:{c}": 100 for c in ("ac_power", "ac_mode", "ac_fan", "ac_temp", "zone_power", "zone_temp", "zone_damper")} | \
-        {"call:quick_duration": 30, "call:timer_time": 30, "call:timer_clear": 30, "call:updates": 20}
+        {"call:quick_duration": 30, "call:timer_time": 30, "call:timer_clear": 30, "call:updates": 20,
+                                                                                       "call-during-half-received-frame": 200}
 
 
 def run_shard(spec, seed: int, tier: str):
